@@ -216,11 +216,20 @@ impl Server {
     }
 
     pub fn initialize(&mut self, root_uri: Option<&str>, timeout: Duration) -> Option<Value> {
-        let params = json!({
+        let caps = json!({"textDocument": {"semanticTokens": {"requests": {"full": true, "range": true}, "tokenTypes": [], "tokenModifiers": [], "formats": ["relative"]}}});
+        self.initialize_with(root_uri, caps, None, timeout)
+    }
+
+    /// `initialize` with the client's capabilities (and optionally its `clientInfo`) given.
+    pub fn initialize_with(&mut self, root_uri: Option<&str>, capabilities: Value, client_info: Option<Value>, timeout: Duration) -> Option<Value> {
+        let mut params = json!({
             "processId": Value::Null,
             "rootUri": root_uri,
-            "capabilities": {"textDocument": {"semanticTokens": {"requests": {"full": true, "range": true}, "tokenTypes": [], "tokenModifiers": [], "formats": ["relative"]}}},
+            "capabilities": capabilities,
         });
+        if let Some(ci) = client_info {
+            params["clientInfo"] = ci;
+        }
         let id = self.request("initialize", params);
         let r = self.wait_response(id, timeout)?;
         self.notify("initialized", json!({}));
@@ -292,4 +301,60 @@ pub fn read_to_string_lossy(mut r: impl Read) -> String {
     let mut s = Vec::new();
     let _ = r.read_to_end(&mut s);
     String::from_utf8_lossy(&s).to_string()
+}
+
+/// The standard token types of LSP 3.17, in the order of the specification.
+pub const STANDARD_TOKEN_TYPES: &[&str] = &[
+    "namespace", "type", "class", "enum", "interface", "struct", "typeParameter", "parameter", "variable", "property", "enumMember", "event", "function", "method", "macro", "keyword", "modifier", "comment", "string", "number",
+    "regexp", "operator", "decorator",
+];
+
+/// What a client says about itself at `initialize`: every knob is something real editors
+/// differ in. `descr` names the choices (for coverage sets and signatures).
+pub struct ClientProfile {
+    pub capabilities: Value,
+    pub client_info: Option<Value>,
+    /// the encodings offered in `general.positionEncodings` (None = capability absent)
+    pub offered_encodings: Option<Vec<&'static str>>,
+    pub descr: String,
+}
+
+pub fn client_profile(r: &mut crate::rng::Rng) -> ClientProfile {
+    let (encs, encs_name): (Option<Vec<&'static str>>, &str) = match r.below(6) {
+        0 => (None, "enc=absent"),
+        1 => (Some(vec!["utf-16"]), "enc=utf16"),
+        2 => (Some(vec!["utf-8", "utf-16"]), "enc=utf8-first"),
+        3 => (Some(vec!["utf-32", "utf-16"]), "enc=utf32-first"),
+        4 => (Some(vec!["utf-16", "utf-8"]), "enc=utf16-first"),
+        _ => (Some(vec!["utf-8", "utf-32", "utf-16"]), "enc=all"),
+    };
+    let (types, types_name): (Vec<&str>, &str) = match r.below(5) {
+        0 => (vec![], "types=empty"),
+        1 => (STANDARD_TOKEN_TYPES.to_vec(), "types=standard"),
+        2 => (vec!["function", "type", "variable"], "types=no-namespace"),
+        3 => (vec!["variable", "keyword"], "types=none-of-the-server's"),
+        _ => (vec!["type", "namespace", "function"], "types=reordered"),
+    };
+    let mut caps = json!({"textDocument": {"semanticTokens": {"requests": {"full": true, "range": true}, "tokenTypes": types, "tokenModifiers": [], "formats": ["relative"]}}});
+    if let Some(e) = &encs {
+        caps["general"] = json!({"positionEncodings": e});
+    }
+    let mut extras: Vec<&str> = Vec::new();
+    if r.chance(1, 3) {
+        caps["window"] = json!({"workDoneProgress": true, "showMessage": {"messageActionItem": {"additionalPropertiesSupport": true}}});
+        extras.push("progress");
+    }
+    if r.chance(1, 3) {
+        caps["workspace"] = json!({"configuration": true, "didChangeWatchedFiles": {"dynamicRegistration": true, "relativePatternSupport": r.chance(1, 2)}});
+        extras.push("configuration+watch");
+    }
+    let client_info = match r.below(4) {
+        0 => {
+            extras.push("neovim");
+            Some(json!({"name": "Neovim", "version": "0.9.1"}))
+        }
+        1 => Some(json!({"name": "Visual Studio Code", "version": "1.90.0"})),
+        _ => None,
+    };
+    ClientProfile { capabilities: caps, client_info, offered_encodings: encs, descr: format!("{encs_name},{types_name}{}{}", if extras.is_empty() { "" } else { "," }, extras.join("+")) }
 }
